@@ -65,8 +65,9 @@ def gen(rng, tier, index):
         return gen_systematic(rng)
     strict = rng.random() < 0.5
     backends = ('t',) if rng.random() < 0.6 else tuple(pargen.BACKENDS_POOL)
+    user_src = (not strict) and rng.random() < 0.06
     desc, a = pargen.gen_desc(
-        rng, max_n=8, simple=strict,
+        rng, max_n=8, simple=strict, source_kind='user' if user_src else None,
         par_kw=dict(backends=backends, max_extra_b=2,
                     catch_p=0.0 if strict else 0.15))
     n = desc['source']['n']
@@ -78,6 +79,10 @@ def gen(rng, tier, index):
         stages = [s['id'] for s in desc['stages'] if 'id' in s]
         faults = [{'stage': rng.choice(stages), 'pos': rng.randrange(n),
                    'exc': rng.choice(['value', 'filter', 'base', 'key', 'index', 'timeout', 'stopiter'])}]
+    pst_ = desc['stages'][pargen.par_index(desc)]
+    if user_src and (pst_['op'] == 'parmap' or not pargen.is_pool(pst_)):
+        # setting up the iteration over the user's dataset fails: iter() itself raises
+        faults = [{'stage': 'src_iter', 'pos': 0, 'exc': rng.choice(['value', 'base', 'key'])}]
     trace = ['parallel_utils', 'core'] if rng.random() < 0.3 else ['parallel_utils']
     # key iteration: the worker then iterates a generator object, not a dataset
     pi_ = pargen.par_index(desc)
